@@ -300,35 +300,35 @@ theorem allNodes_goodAll (e : Expr) (hs : allNodes shapeOK e = true) (hn : allNo
     (h1 : NoMixedAndOr e = true) (h2 : NoUnaryMinusOperand e = true) (h3 : NoLikeArith e = true)
     (h4 : NoIntegralNumberLit e = true) (h5 : NoInfNanIdent e = true) (h6 : CallNamesPlain e = true)
     (h7 : allNodes pRegex e = true) (h8 : NoTagTypedBeforeDiv e = true) (h9 : TypesReadBack e = true)
-    (h10 : DursInRange e = true) (h11 : SetsReadBack e = true) : allNodes goodAll e = true := by
+    (h10 : DursInRange e = true) : allNodes goodAll e = true := by
   have : goodAll = fun x => shapeOK x && nodeOK x && pMixed x && pNeg x && pLike x && pIntegral x &&
-      pInfNan x && pCallPlain x && pRegex x && pTagDiv x && pTypes x && pDur x && pSets x := rfl
+      pInfNan x && pCallPlain x && pRegex x && pTagDiv x && pTypes x && pDur x := rfl
   rw [this]
   simp only [allNodes_and]
   unfold NoMixedAndOr NoUnaryMinusOperand NoLikeArith NoIntegralNumberLit NoInfNanIdent CallNamesPlain
-    NoTagTypedBeforeDiv TypesReadBack DursInRange SetsReadBack at *
-  simp [hs, hn, h1, h2, h3, h4, h5, h6, h7, h8, h9, h10, h11]
+    NoTagTypedBeforeDiv TypesReadBack DursInRange at *
+  simp [hs, hn, h1, h2, h3, h4, h5, h6, h7, h8, h9, h10]
 
 /-- **the property for conditions**, under hypotheses that exclude exactly the defect classes:
 a tree the statement parser built that shows none of them is re-parsed from its printout as
 itself — same operators, same grouping, same literals with their types, same identifiers and
-regular expressions. `h1`–`h9` are the nine defect classes of known_findings.jsonl; `h10`, `h11`
-are not defects but two facts about scanner / model output that are not proved here (a
-DURATIONVAL never starts with `-`; the members of a key set are read back into the same set) —
-the driver checks both on every case it runs. That the tree has the shape `YaccOut` is proved
-(`yaccParse_out`). -/
+regular expressions. `h1`–`h9` are the defect classes of known_findings.jsonl; `h10` is not a
+defect but a fact about scanner output that is not proved here (a DURATIONVAL never starts with
+`-`, so a DurationLiteral of the grammar is not negative) — the driver checks it on every case
+it runs. That the tree has the shape `YaccOut` (operator chains, literal ranges, canonical key
+sets) is proved (`yaccParse_out`), and so is the read-back of key sets (`setRT_of_canon`). -/
 theorem expr_roundtrip_partial (toks : List Tok) (e : Expr)
     (hy : yaccParse toks = some e)
     (h1 : NoMixedAndOr e = true) (h2 : NoUnaryMinusOperand e = true) (h3 : NoLikeArith e = true)
     (h4 : NoIntegralNumberLit e = true) (h5 : NoInfNanIdent e = true) (h6 : CallNamesPlain e = true)
     (h7 : RegexPlacementOK e = true) (h8 : NoTagTypedBeforeDiv e = true) (h9 : TypesReadBack e = true)
-    (h10 : DursInRange e = true) (h11 : SetsReadBack e = true) :
+    (h10 : DursInRange e = true) :
     parseExpr (print e) = some e := by
   have hout := yaccParse_out toks e hy
   simp only [YaccOut, Bool.and_eq_true] at hout
   simp only [RegexPlacementOK, Bool.and_eq_true] at h7
   obtain ⟨hc, ha⟩ := good_canon_atoms e
-    (allNodes_goodAll e hout.1.1 hout.1.2 h1 h2 h3 h4 h5 h6 h7.2 h8 h9 h10 h11)
+    (allNodes_goodAll e hout.1.1 hout.1.2 h1 h2 h3 h4 h5 h6 h7.2 h8 h9 h10)
   exact parseExpr_print e hc ha h7.1 hout.2
 
 /-- non-vacuity: a condition that mixes four precedence levels, a quoted identifier, a typed
@@ -343,7 +343,7 @@ def sampleToks : List Tok :=
 example : (match yaccParse sampleToks with
     | some e => YaccOut e && NoMixedAndOr e && NoUnaryMinusOperand e && NoLikeArith e &&
         NoIntegralNumberLit e && NoInfNanIdent e && CallNamesPlain e && RegexPlacementOK e &&
-        NoTagTypedBeforeDiv e && TypesReadBack e && DursInRange e && SetsReadBack e && decide (parseExpr (print e) = some e) && decide (nops e = 4)
+        NoTagTypedBeforeDiv e && TypesReadBack e && DursInRange e && decide (parseExpr (print e) = some e) && decide (nops e = 4)
     | none => false) = true := by decide
 
 /-! ## option / plan / chunk codecs: field coverage
